@@ -11,6 +11,7 @@ From PV Require Import Model.TzGlueObj Gen.TzGlue Proofs.TzGlueFacts Proofs.C03F
 From PV Require Import Model.StartEndGlueObj Gen.StartEndGlue Proofs.StartEndGlueFacts.
 From PV Require Import Model.Weekday Proofs.C16Facts Model.WeekdayZone Model.DateTimeNavGlueObj Gen.DateTimeNavGlue Proofs.DateTimeNavGlueFacts.
 Import ListNotations.
+Ltac Zify.zify_post_hook ::= Z.to_euclidean_division_equations.
 Open Scope Z_scope.
 
 Lemma upd_val : us_per_day = 86400000000. Proof. reflexivity. Qed.
@@ -32,9 +33,7 @@ Section ZoneInst.
 
   Lemma zwall_split x : wfz x -> z_wall x / us_per_day + 1 = date_ord (z_date x) /\ z_wall x mod us_per_day = z_tod x.
   Proof.
-    intros [_ T]. unfold z_wall, wall_of_date. rewrite upd_val in *. split.
-    - rewrite Z.add_comm, Z.div_add by lia. rewrite Z.div_small by lia. lia.
-    - rewrite Z.add_comm, Z.mod_add by lia. apply Z.mod_small. lia.
+    intros [_ T]. unfold z_wall, wall_of_date. rewrite upd_val in *. set (n := date_ord (z_date x)). clearbody n. split; lia.
   Qed.
 
   Lemma zwall_range x : wfz x -> wall_in_range (z_wall x) = true.
@@ -61,11 +60,13 @@ Section ZoneInst.
   Lemma zdt_of_wall_R W' f' : wall_in_range W' = true -> Rz (zdt_of_wall W' f') (dt_of W' f' tzo).
   Proof.
     intros Rg. apply wall_in_range_iff in Rg.
-    assert (O : 1 <= W' / us_per_day + 1 <= Weekday.MAXORD) by (unfold Weekday.MAXORD; rewrite upd_val; lia).
+    assert (O : 1 <= W' / us_per_day + 1 <= Weekday.MAXORD).
+    { unfold Weekday.MAXORD. rewrite upd_val. clear - Rg. pose proof (Z.div_pos W' 86400000000 ltac:(lia) ltac:(lia)).
+      assert (W' / 86400000000 < 3652059) by (apply Z.div_lt_upper_bound; lia). lia. }
     destruct (P_spec _ O) as [Wf Eo]. unfold Rz, zobj, wfz, zdt_of_wall. cbn [z_date z_tod z_fold]. fold (P (W' / us_per_day + 1)).
     assert (Ew : z_wall {| z_date := P (W' / us_per_day + 1); z_tod := W' mod us_per_day; z_fold := f' |} = W').
     { unfold z_wall, wall_of_date. cbn [z_date z_tod]. rewrite Eo. rewrite upd_val. lia. }
-    rewrite Ew. repeat split; try assumption; rewrite upd_val; lia.
+    rewrite Ew. split; [reflexivity|]. split; [exact Wf|]. rewrite upd_val. clear. lia.
   Qed.
 
   Notation simz := (sim zdt Rz).
